@@ -247,7 +247,7 @@ func crashReopen(cfg storeCfg, orig *storeRun, img map[string][]byte, k int, des
 func faultCase(r *rng) {
 	cfg := storeCfg{batch: []int{1, 2, 3}[r.intn(3)], cache: 512, flavour: []string{"plain", "ctx"}[r.intn(2)], n: 6 + r.intn(6)}
 	caseNo++
-	nFail, at := 1+r.intn(3), r.intn(6)
+	nFail, at := []int{1, 2, 3, 5, 8}[r.intn(5)], r.intn(6) // (a bounded retry loop has to be outlasted: up to 8 consecutive failing commits)
 	emit("case %d C06 batch=%d cache=%d flavour=%s n=%d ranges=0 faults=%d@%d", caseNo, cfg.batch, cfg.cache, cfg.flavour, cfg.n, nFail, at)
 	core := memds.NewCore()
 	seen, failed := 0, 0
